@@ -6,6 +6,8 @@ import (
 
 	"github.com/indexsupply/shovel/shovel"
 
+	"verif/harness/gen"
+	"verif/harness/model"
 	"verif/harness/scen"
 	"verif/harness/simnode"
 	"verif/harness/vk"
@@ -36,6 +38,13 @@ func c06Modes(tier string) int {
 	return 1
 }
 
+func c06Shared(tier string) int {
+	if tier == "thorough" {
+		return 600
+	}
+	return 96
+}
+
 func c06Random(tier string) int {
 	if tier == "thorough" {
 		return 2000
@@ -48,7 +57,7 @@ func init() {
 		ID:        "C06",
 		Level:     "exploration",
 		Technique: "range/outcome monitor on every commit and on the node's request log over an exhaustive (start, stop, batch, concurrency, prior position) grid with restarts and head growth; reference projection at the end",
-		Rule: fmt.Sprintf("grid: start ∈ %v × stop ∈ %v × batch ∈ %v × concurrency ∈ %v × prior position ∈ %v (= %d combinations, all run; ×3 indexing modes in thorough), each with a history of steps, head growth and restarts; plus random ranges/histories. "+
+		Rule: fmt.Sprintf("grid: start ∈ %v × stop ∈ %v × batch ∈ %v × concurrency ∈ %v × prior position ∈ %v (= %d combinations, all run; ×3 indexing modes in thorough), each with a history of steps, head growth and restarts; plus random ranges/histories; plus shared-client cases: a bounded integration next to an unbounded one on the same source client (shared segment cache), optionally depending on it through a filter reference, the unbounded one running ahead. "+
 			"signature = (start kind, stop kind, prior kind, batch, concurrency, outcome class); trivial = nothing was ever written and no completion reported.", c06Starts, c06Stops, c06Batches, c06Concs, c06Priors, c06GridSize()),
 		Assumptions: []string{
 			"a prior recorded position lies inside the configured range or above the stop (a position below the configured start is a contradictory configuration the statement does not rank)",
@@ -56,7 +65,7 @@ func init() {
 			"a start beyond the head writes nothing until the chain reaches it; steps may fail meanwhile",
 		},
 		NCases: func(tier string) int {
-			return c06GridShards*c06Modes(tier) + c06Random(tier)
+			return c06GridShards*c06Modes(tier) + c06Random(tier) + c06Shared(tier)
 		},
 		Run:              c06Run,
 		CrashIsViolation: true,
@@ -396,7 +405,149 @@ func c06One(c *vk.Case, p *c06Params) {
 	c.SetSig("start=%s stop=%s prior=%s b=%d c=%d -> %s", p.startK, p.stopK, p.priorK, p.batch, p.conc, m.outcome)
 }
 
+// c06SharedCase: a bounded integration next to an unbounded one on the same
+// source client (shared segment cache), optionally depending on it through a
+// filter reference. The unbounded one always runs first in a round.
+func c06SharedCase(c *vk.Case) {
+	r := c.R
+	withDep := c.Index%2 == 0
+	pool := make([][]byte, 4)
+	for i := range pool {
+		pool[i] = r.Bytes(20)
+	}
+	start := uint64(r.Range(1, 4))
+	stop := start + uint64(r.Range(2, 9))
+	batch := vk.Pick(r, []int{1, 4, 10})
+	a := &model.Decl{Name: namePoolIG[0], Enabled: true, Table: namePoolTbl[0], ColTypes: map[string]string{}, InFilter: map[string]model.Filter{}}
+	a.Sources = []model.SrcRef{{Name: namePoolSrc[0], Start: start}}
+	a.Block = []model.BlockField{{Name: "tx_signer", Column: "who", ColType: "bytea"}, {Name: "tx_value", Column: "tx_value", ColType: "numeric"}}
+	b := &model.Decl{Name: namePoolIG[1], Enabled: true, Table: namePoolTbl[1], ColTypes: map[string]string{}, InFilter: map[string]model.Filter{}}
+	b.Sources = []model.SrcRef{{Name: namePoolSrc[0], Start: start, Stop: stop}}
+	b.Block = []model.BlockField{{Name: "tx_to", Column: "tx_to", ColType: "bytea"}, {Name: "tx_value", Column: "tx_value", ColType: "numeric"}}
+	if withDep {
+		b.Block[0].Filter = model.Filter{Op: "contains", Ref: &model.Ref{Integration: a.Name, Column: "who"}}
+	}
+	seed := r.U64()
+	inner := gen.Content(gen.ChainOpts{Seed: seed, MinTxs: 1, MaxTxs: 3})
+	chain := simnode.NewChain(nextChainID(), func(bl *simnode.Block) {
+		inner(bl)
+		rr := vk.NewRNG(vk.Derive(seed, 0x606, bl.Version))
+		for i := range bl.Txs {
+			bl.Txs[i].From = vk.Pick(rr, pool)
+			bl.Txs[i].To = vk.Pick(rr, pool)
+		}
+	})
+	chain.Grow(int(stop) + r.Range(3, 12))
+	node := simnode.Global().NewNode(chain)
+	spec := &scen.Spec{Sources: []scen.SourceSpec{{Name: namePoolSrc[0], ChainID: 3, Batch: batch, Concurrency: vk.Pick(r, []int{1, 2}), Poll: "1h", Node: node}}, Decls: []*model.Decl{a, b}}
+	me := newMultiEnv(c, spec, "shared:")
+	if me == nil {
+		return
+	}
+	defer me.close()
+	if me.env.SetupErr != nil {
+		c.Violate("shared:setup-rejected", map[string]any{"config": string(me.env.ConfJSON), "error": me.env.SetupErr.Error()}, "configuration rejected: %v", me.env.SetupErr)
+		return
+	}
+	var pa, pb *mPair
+	for _, p := range me.pairs {
+		if p.ig == a.Name {
+			pa = p
+		} else {
+			pb = p
+		}
+	}
+	pb.pm.noContent = withDep
+	done := false
+	detail := func() map[string]any {
+		return merge(me.detail(), map[string]any{"start": start, "stop": stop, "batch": batch, "with_dependency": withDep})
+	}
+	for round := 0; round < 40 && len(c.Res.Violations) == 0; round++ {
+		// the unbounded integration runs ahead (and fills the segment cache), then the bounded one
+		for k := 0; k < r.Range(1, 3); k++ {
+			me.stepSeq(pa, false)
+		}
+		posBefore, hadPos := pb.pm.captureLive().position()
+		res := me.env.Step(pb.task)
+		c.Obs("steps", 1)
+		c.Obs("shared_steps", 1)
+		me.checkOwnership(res.Commits, pb)
+		for _, rec := range res.Commits {
+			if rec.Aborted || len(rec.Tx.Effects) == 0 {
+				continue
+			}
+			dc := pb.pm.classify(rec)
+			c.Obs("commits_range_checked", 1)
+			if done {
+				c.Violate("shared:write-after-completion", detail(), "the bounded integration wrote after it had reported completion")
+			}
+			for _, row := range dc.rowsIns {
+				if n, ok := rowBlockNum(dc.tbl, row); ok && (n > stop || n < start) {
+					c.Violate(fmt.Sprintf("shared:row-outside-range:dep=%v", withDep), merge(detail(), map[string]any{"block": n}), "row for block %d written outside the configured range [%d, %d]", n, start, stop)
+				}
+			}
+			for _, cr := range dc.cursorIns {
+				if cr.num > stop || cr.num < start {
+					c.Violate(fmt.Sprintf("shared:position-outside-range:dep=%v", withDep), merge(detail(), map[string]any{"position": cr.num}), "position %d recorded outside the configured range [%d, %d]", cr.num, start, stop)
+				}
+			}
+		}
+		pos, has := pb.pm.captureLive().position()
+		if errors.Is(res.Err, shovel.ErrDone) {
+			c.Obs("done_reported", 1)
+			if !has || pos < stop {
+				c.Violate("shared:completion-reported-early", merge(detail(), map[string]any{"position": pos}), "completion reported at position %d with stop %d", pos, stop)
+			}
+			if done {
+				break
+			}
+			done = true
+		} else if hadPos && posBefore >= stop {
+			c.Violate("shared:completion-not-reported", merge(detail(), map[string]any{"position": posBefore, "err": fmt.Sprint(res.Err)}), "position %d had reached stop %d but the step returned %v", posBefore, stop, res.Err)
+		}
+	}
+	if len(c.Res.Violations) == 0 && done {
+		// the periodic position-history trim and a restart must not undo completion
+		for k := 0; k < 3; k++ {
+			me.stepSeq(pa, false)
+		}
+		me.prune(r.Range(1, 3))
+		me.env.Crash()
+		if me.env.SetupErr != nil {
+			c.Violate("shared:restart-failed", detail(), "restart failed: %v", me.env.SetupErr)
+			return
+		}
+		me.bindTasks()
+		for _, p := range me.pairs {
+			if p.ig == b.Name {
+				pb = p
+			}
+		}
+		for k := 0; k < 3 && len(c.Res.Violations) == 0; k++ {
+			res := me.env.Step(pb.task)
+			for _, rec := range res.Commits {
+				if !rec.Aborted && len(rec.Tx.Effects) > 0 {
+					c.Violate("shared:write-after-completion:after-prune-and-restart", detail(), "after pruning the position history and restarting, the completed integration wrote again")
+				}
+			}
+			if !errors.Is(res.Err, shovel.ErrDone) {
+				c.Violate("shared:completion-forgotten:after-prune-and-restart", merge(detail(), map[string]any{"err": fmt.Sprint(res.Err)}), "after pruning the position history and restarting, the completed integration returned %v instead of completion", res.Err)
+			}
+		}
+		c.Obs("restarts", 1)
+	}
+	if len(c.Res.Violations) == 0 && !done {
+		c.Violate("shared:never-completed", detail(), "the bounded integration never reported completion although the source is far beyond its stop")
+	}
+	c.Obs("runs", 1)
+	c.SetSig("shared dep=%v batch=%d done=%v", withDep, batch, done)
+}
+
 func c06Run(c *vk.Case) {
+	if c.Index >= c06GridShards*c06Modes(c.Tier)+c06Random(c.Tier) {
+		c06SharedCase(c)
+		return
+	}
 	nm := c06Modes(c.Tier)
 	if c.Index < c06GridShards*nm {
 		mode, shard := c.Index/c06GridShards, c.Index%c06GridShards
